@@ -156,8 +156,15 @@ def all_streams(maxlen):
 
 def gen_random(rng):
     recs = records.gen_records(rng)
+    if rng.random() < 0.02:
+        # a long history (thousands of rows over few keys): whatever batch size a bounded sorter trims in is exceeded
+        recs = records.gen_records(rng, n=rng.choice((1500, 2600, 4000)))
     args = []
     groupkey = "g"
+    if rng.random() < 0.2:
+        # top-level scalars between the records; with --only-objects-and-arrays they are no rows and use up no --skip
+        recs = [x for r0 in recs for x in ([r0] if rng.random() < 0.7 else [rng.choice((1, "s", None, True, 2.5)), r0])]
+        args += ["--only-objects-and-arrays"]
     r = rng.random()
     if r < 0.3:
         args += ["--split-by", ".arr"]
